@@ -80,10 +80,11 @@ def project(raw_events, scenario, bound=None):
     for ev in raw_events:
         kind = ev.get("ev")
         o = dict(BLANK, src=ev.get("seq", 0), t=ev.get("t", 0))
-        if kind != "Tel" or ev.get("kind") != "ExtensionInit":
-            if pending_lines is not None:
-                out.append(pending_lines)
-                pending_lines = None
+        # the extension status lines of one init are emitted back to back by one goroutine but other
+        # actors' events may be recorded in between: they are merged and placed before the InitReport
+        if kind == "Tel" and ev.get("kind") == "InitReport" and pending_lines is not None:
+            out.append(pending_lines)
+            pending_lines = None
         if kind == "InitCall":
             o["e"] = "InitCall"
         elif kind == "Exec":
@@ -117,6 +118,13 @@ def project(raw_events, scenario, bound=None):
         elif kind in RETS:
             o.update(e="Ret", cid=ev.get("cid", 0), who=who_of(ev.get("who", ev["actor"])), status=ev.get("status", 0),
                      et=ev.get("errType", ""), net=ev.get("net", ""), gen=ev.get("gen", 0))
+            if kind == "RegisterRet" and ev.get("status") == 200:
+                good = (ev.get("fn") == "test_function" and ev.get("ver") == "$LATEST" and ev.get("handler") == "handler.fn"
+                        and bool(ev.get("hasId")))
+                o["reason"] = "meta-ok" if good else "meta-bad"
+                o["kind"] = "acct" if ev.get("account") not in (None, "") else ""
+                if o["kind"] == "acct" and ev.get("account") != opt.get("accountId", ""):
+                    o["reason"] = "meta-bad"
             if kind == "NextRet":
                 o["kind"] = ev.get("kind", "")
                 o["inv"] = reqk.get(ev.get("reqid", ""), 0)
